@@ -52,6 +52,19 @@ def _build_base(name):
         corrupted = w[:6] + ('A' if w[6] != 'A' else 'C') + w[7:]
         filt = dsw.LocalBioFilter(observed_length=3, max_homopolymer_runs=2, undesired_motifs=['GC']) if name == 'generated3' \
             else dsw.LocalBioFilter(observed_length=3, gc_range=[0.3, 0.7])
+    elif name in ('homo4', 'other4'):
+        k = 4
+        c = O.compile_cfg((4, 2, None, None)) if name == 'homo4' else O.compile_cfg((4, 2, ('0.25', '0.75'), None))
+        mask = {v for v in range(256) if O.seq_ok_c(c, O.kmer(v, 4))}
+        G = O.from_mask(O.gfp(mask, 4, 2), 4)
+        start = sorted(O.has_arcs(G))[3]
+        bits = [1, 0, 0, 1, 1, 0, 1, 0, 1, 1, 1, 0]
+        strand = O.ref_encode(bits, G, start)
+        w = U.walks_dev(G, start, 18, 0)[0]
+        live_ = O.outs(G, O.walk_end(G, start, w[:8]))
+        bad = [c_ for c_ in 'ACGT' if O.NUC.index(c_) not in live_]
+        corrupted = w[:8] + (bad[0] if bad else 'A') + w[9:]
+        filt = dsw.LocalBioFilter(observed_length=4, max_homopolymer_runs=2, gc_range=None if name == 'homo4' else [0.25, 0.75])
     else:
         k = 1
         G = [[0, 1, 2, 3], [0, -1, 2, -1], [-1, 1, -1, -1], [0, 1, 2, -1]] if name == 'mixed1' else \
@@ -72,6 +85,9 @@ def _build_base(name):
         'strand': strand, 'corrupted': corrupted, 'start': start, 'filter': filt,
         'matrix': np.array([[1 if w in [x for x in G[u] if x >= 0] else 0 for w in range(n)] for u in range(n)], dtype=int),
         'check': O.vt(strand, 4), 'number': '9041999', 'dna': 'ACGTTGCA',
+        'bits_long': np.array([(i * 7 + i // 3) % 2 for i in range(160)], dtype=int),
+        'strand_long': O.ref_encode([(i * 7 + i // 3) % 2 for i in range(160)], G, start),
+        'short_strings': [''.join(p) for n_ in (1, 2) for p in __import__('itertools').product('ACGT', repeat=n_)],
     }
     return A
 
@@ -94,6 +110,27 @@ def ops():
     add('decode_table', lambda d, A, **v: d.decode(A['strand'], len(A['bits']), A['acc'], A['start'], shuffles=A['table'], **v), True)
     add('decode_check', lambda d, A, **v: d.decode(A['strand'], len(A['bits']), A['acc'], A['start'], vt_check=A['check'], **v), True)
     add('decode_bad', lambda d, A, **v: d.decode(A['corrupted'], 30, A['acc'], A['start'], **v), True)
+    add('encode_long', lambda d, A, **v: d.encode(A['bits_long'], A['acc'], A['start'], **v), True)
+    add('encode_long_table', lambda d, A, **v: d.encode(A['bits_long'], A['acc'], A['start'], shuffles=A['table'], **v), True)
+    add('decode_long', lambda d, A, **v: d.decode(A['strand_long'], 160, A['acc'], A['start'], **v), True)
+
+    def dec_all(d, A):
+        out = []
+        for s_ in A['short_strings']:
+            try:
+                out.append(d.decode(s_, 6, A['acc'], A['start']).tolist())
+            except ValueError:
+                out.append('ValueError')
+        return out
+    add('decode_all_short', dec_all)
+
+    def rep_all(d, A):
+        out = []
+        for s_ in A['short_strings'][4:]:
+            if len(s_) >= A['k']:
+                out.append(d.repair_dna(s_, A['acc'], A['start'], A['k'], has_indel=True))
+        return out
+    add('repair_all_short', rep_all)
     add('set_vt', lambda d, A: d.set_vt(A['strand'], 4))
     add('repair', lambda d, A: d.repair_dna(A['corrupted'], A['acc'], A['start'], A['k'], has_indel=True))
     add('repair_noindel', lambda d, A: d.repair_dna(A['corrupted'], A['acc'], A['start'], A['k'], has_indel=False))
@@ -214,6 +251,29 @@ def fresh_reference(setname, opnames):
     return out
 
 
+def _fresh_task(args):
+    setname, opname = args
+    A = build_args(setname)
+    if opname == '@args':
+        return setname, opname, args_snap(A)
+    got, out = run_op(opname, A)
+    return setname, opname, got
+
+
+def fresh_reference_fork(setnames, opnames):
+    """Fresh-process references, one forked child per (set, operation).  The children are forked
+    from this interpreter BEFORE it has executed a single dsw call (only imports), each child serves
+    exactly one task (maxtasksperchild=1), so every reference is 'the operation executed alone in a
+    fresh process on equal arguments'."""
+    import multiprocessing as mp
+    tasks = [(s_, n) for s_ in setnames for n in list(opnames) + ['@args']]
+    refs = {s_: {} for s_ in setnames}
+    with mp.get_context('fork').Pool(core.NPROC, maxtasksperchild=1) as pool:
+        for s_, n, got in pool.imap_unordered(_fresh_task, tasks, 1):
+            refs[s_][n] = got
+    return refs
+
+
 def mods():
     import dsw
     return [dsw.spiderweb, dsw.graphized, dsw.operation, dsw.biofilter]
@@ -237,6 +297,16 @@ def run_steps(r, steps, refs):
                     live[sname] = build_args(variant[sname])
             continue
         sname = stp[1]
+        if stp[0] == 'restore':
+            # the caller undoes the removal by writing the arcs back into its own objects
+            fresh = build_args(sname.split('@')[0])
+            A = live[sname]
+            A['acc'][...] = fresh['acc']
+            A['lm'].clear()
+            A['lm'].update(fresh['lm'])
+            variant[sname] = sname.split('@')[0]
+            snap0[sname] = refs[variant[sname]]['@args']
+            continue
         if sname not in live:
             live[sname] = build_args(sname)
             variant[sname] = sname
@@ -280,6 +350,8 @@ def _kind(steps):
     sets = {x[1] for x in steps if len(x) > 1}
     if 'scribble' in kinds:
         return 'scribble-result'
+    if 'restore' in kinds:
+        return 'in-place-removal-and-restore'
     if 'inplace' in kinds:
         return 'in-place-removal'
     if len(sets) > 1:
@@ -341,7 +413,7 @@ def _w_verbose(chunk):
     return r
 
 
-PAIRS = [('literal2', 'other2'), ('generated3', 'other3'), ('mixed1', 'other1')]
+PAIRS = [('literal2', 'other2'), ('generated3', 'other3'), ('mixed1', 'other1'), ('homo4', 'other4')]
 
 
 def run(ctx):
@@ -351,14 +423,20 @@ def run(ctx):
     names = [n for n, f, v in ops()]
     vnames = [n for n, f, v in ops() if v]
     pure = [n for n in names if n != 'remove_arc_inplace']
-    core_ops = ['encode', 'decode', 'encode_table', 'repair', 'coding_graph_t1', 'capacity_3_seeded', 'shuffles', 'scores',
-                'remove_arc_on_copies', 'find_vertices', 'lm_to_acc_t2', 'bit_to_number']
+    core_ops = ['encode_long', 'decode_all_short', 'repair_all_short', 'capacity_1', 'scores', 'coding_graph_t1', 'encode_table', 'capacity_3_seeded',
+                'shuffles', 'remove_arc_on_copies', 'find_vertices', 'lm_to_acc_t2']
     nh = 0
+    allsets = [x for a, b in PAIRS for x in (a, b, a + '@removed')]
+    allrefs = fresh_reference_fork(allsets, names)          # must stay the first thing that touches dsw
+    # spot-check the forked references against literally fresh interpreters
+    spot = fresh_reference('literal2', ['encode', 'capacity_3_seeded', 'shuffles', 'repair'])
+    for n_, v_ in spot.items():
+        if allrefs['literal2'][n_] != v_:
+            ctx.res.ctr['HARNESS_ERROR'] += 1
+            ctx.res.samples.append('forked reference differs from a fresh interpreter for ' + n_)
+    ctx.log('fresh-process references', len(allsets), 'sets x', len(names), 'operations')
     for a, b in PAIRS:
-        refs = {}
-        for sname in (a, b, a + '@removed'):
-            refs[sname] = fresh_reference(sname, names)
-        ctx.log('fresh-process references for', a, b, a + '@removed')
+        refs = {sname: allrefs[sname] for sname in (a, b, a + '@removed')}
         H = []
         H += [[('op', a, x)] for x in pure]                                                   # depth 1
         H += [[('op', a, x), ('op', a, y)] for x in pure for y in pure]                       # depth 2, exhaustive
@@ -367,6 +445,7 @@ def run(ctx):
         H += [[('op', a, x), ('scribble',), ('op', a, x)] for x in pure]                      # caller overwrites its result
         H += [[('op', a, x), ('inplace', a), ('op', a, x)] for x in pure]                     # documented in-place call in between
         H += [[('op', a, x), ('inplace', a), ('op', a, y)] for x in co for y in co if x != y]
+        H += [[('op', a, x), ('inplace', a), ('op', a, x), ('restore', a), ('op', a, x)] for x in pure]   # ... and the caller undoes it
         H += [[('op', a, x), ('op', b, x), ('op', a, x)] for x in pure]                       # same order, other content
         H += [[('op', b, x), ('op', a, y)] for x in co for y in pure]
         nh += len(H)
@@ -385,7 +464,7 @@ def run(ctx):
                        'state is looked for through the history kinds above', 'results that alias an argument (connect_coding_graph returns the '
                        'caller\'s own mask when nothing is trimmed) are the caller\'s objects: arguments are rebuilt after the scribble step']
     ctx.guard('verbose ops print', ctx.res.ctr['verbose_ops_that_print'] > 10)
-    ctx.guard('all history kinds ran', all(ctx.res.ctr['history_kind_' + k] > 0 for k in ('depth-1', 'depth-2', 'depth-3', 'scribble-result', 'in-place-removal', 'cross-content')))
+    ctx.guard('all history kinds ran', all(ctx.res.ctr['history_kind_' + k] > 0 for k in ('depth-1', 'depth-2', 'depth-3', 'scribble-result', 'in-place-removal', 'in-place-removal-and-restore', 'cross-content')))
     ctx.cov['histories_that_changed_module_state'] = int(ctx.res.ctr['histories_that_changed_module_state'])
 
 
